@@ -10,7 +10,11 @@ Inductive event :=
 | ESql (id : N) (sql : str)
 | ECmd (cmd : str)
 | ESleep (d : N)
-| EShutdown (id : N).
+| EShutdown (id : N)
+| EPanicked.                 (* the implementation would panic here (substitution, known finding D9) *)
+
+(* outcome of Runner::may_substitute *)
+Inductive subres := SubOk (s : str) | SubErr (m : str) | SubPanic.
 
 Inductive ans := AOut (d : dbout) | AEcho.
 
@@ -105,11 +109,11 @@ End RetryGeneric.
 Section Runner.
   Variable re_match : str -> str -> bool.
   (* may_substitute with substitution on: sql? -> locals -> text -> Ok text | Err message *)
-  Variable substitute : bool -> list (str * str) -> str -> str + str.
+  Variable substitute : bool -> list (str * str) -> str -> subres.
   Variable sc : script.
 
-  Definition may_substitute (st : rstate) (is_sql : bool) (s : str) : str + str :=
-    if subst_on st then substitute is_sql (vars st) s else inl s.
+  Definition may_substitute (st : rstate) (is_sql : bool) (s : str) : subres :=
+    if subst_on st then substitute is_sql (vars st) s else SubOk s.
 
   (* Connections::get *)
   Definition get_conn (st : rstate) (w : world) (c : conn)
@@ -151,8 +155,9 @@ Section Runner.
     match r with
     | RStatement _ cs c sql _ _ =>
         match may_substitute st true sql with
-        | inr m => ([], st, w, OStatement 0 (Some m))
-        | inl sql' =>
+        | SubPanic => ([EPanicked], st, w, ONothing)
+        | SubErr m => ([], st, w, OStatement 0 (Some m))
+        | SubOk sql' =>
           match get_conn st w c with
           | (ev, st1, w1, None) => (ev, st1, w1, OStatement 0 (Some (connect_failed_msg (makes w))))
           | (ev, st1, w1, Some id) =>
@@ -163,8 +168,9 @@ Section Runner.
         end
     | RQuery _ cs c sql e _ =>
         match may_substitute st true sql with
-        | inr m => ([], st, w, OQuery [] [] (Some m))
-        | inl sql' =>
+        | SubPanic => ([EPanicked], st, w, ONothing)
+        | SubErr m => ([], st, w, OQuery [] [] (Some m))
+        | SubOk sql' =>
           match get_conn st w c with
           | (ev, st1, w1, None) => (ev, st1, w1, OQuery [] [] (Some (connect_failed_msg (makes w))))
           | (ev, st1, w1, Some id) =>
@@ -176,8 +182,9 @@ Section Runner.
     | RSystem _ cs cmd ex _ =>
         if should_skip (labels st) [] cs then ([], st, w, ONothing)
         else match may_substitute st false cmd with
-             | inr m => ([], st, w, OSystem None true)
-             | inl cmd' =>
+             | SubPanic => ([EPanicked], st, w, ONothing)
+             | SubErr m => ([], st, w, OSystem None true)
+             | SubOk cmd' =>
                  let '(a, w1) := sys_request w in
                  ([ECmd cmd'], st, w1, apply_system ex a)
              end
